@@ -10,14 +10,17 @@ Keys == CASE Scene = "V" -> {"main.vol", "s1.vol", "s2.vol", "t.vol"}
           \* P: a sound and a nested track below a sub-track whose pause has settled - their own commands must
           \* still be read at the next callback (observed through state(); fades cannot progress while frozen)
           [] Scene = "P" -> {"ps.run", "pn.run"}
+          \* D: a tweener set with a start delay of 0 or 2 callbacks (a later set supersedes a waiting one)
+          [] Scene = "D" -> {"m.dset"}
           [] OTHER -> {"m.set"}
 Vals(k) == CASE k = "main.vol" -> {0, -40}
              [] k \in {"s1.vol", "s2.vol", "m.set"} -> {0, -20}
              [] k = "t.vol" -> {0, -10}
              [] k = "c.tick" -> {"on", "off"}
+             [] k = "m.dset" -> {[x |-> xx, dl |-> d] : xx \in {0, -20}, d \in {0, 2}}
              [] k \in {"ps.run", "pn.run"} -> {"Pausing", "Resuming"}
              [] OTHER -> {"Paused", "Pausing", "Playing", "Resuming"}
-Init0(k) == CASE k \in {"main.vol", "s1.vol", "s2.vol", "t.vol", "m.set"} -> 0
+Init0(k) == CASE k \in {"main.vol", "s1.vol", "s2.vol", "t.vol", "m.set", "m.dset"} -> 0
               [] k = "c.tick" -> "off"
               [] OTHER -> "Playing"
 \* pause-kind and resume-kind commands are different kinds acting on one observable: one family per window
@@ -26,7 +29,7 @@ Family(k, v) == IF k \notin {"s1.run", "s2.run", "t.run", "ps.run", "pn.run"} TH
 VARIABLES m, hist, nw
 Init == m = HInit([k \in Keys |-> Init0(k)]) /\ hist = <<>> /\ nw = 0
 W(k, v) == /\ nw < MaxW
-           /\ IF m.pend[k] = <<>> THEN TRUE ELSE Family(k, m.pend[k][1]) = Family(k, v)
+           /\ IF m.pend[k] = <<>> \/ k = "m.dset" THEN TRUE ELSE Family(k, m.pend[k][1]) = Family(k, v)
            /\ nw' = nw + 1
            /\ m' = HUpd(m, [a |-> "w", key |-> k, v |-> v])
            /\ hist' = Append(hist, [act |-> "W", key |-> k, v |-> v])
